@@ -502,6 +502,8 @@ type LoopSpec struct {
 	HasMod    bool
 	N         int
 	Invs      []*Clause
+	BodyEns   []*Clause
+	BodyRet   []*Clause
 	Decreases *Clause
 	Modifies  []*Clause
 }
@@ -600,7 +602,7 @@ var clauseKW = map[string]bool{
 	"modifies": true, "loop": true, "invariant": true, "decreases": true, "safe": true,
 	"nowrap": true, "wrapok": true, "inline": true, "trusted": true, "uses": true, "split": true, "props": true,
 	"axiom": true, "induction": true, "guarded_by": true, "pure": true, "assert": true, "timeout": true,
-	"trigger": true, "abstract": true, "opaque": true, "reveal": true, "implementations": true,
+	"trigger": true, "abstract": true, "opaque": true, "reveal": true, "implementations": true, "body_ensures": true, "body_returns": true,
 }
 
 func splitName(rest string) (name, body string) {
@@ -897,6 +899,16 @@ func (sf *SpecFile) Load(path, pkg string) (err error) {
 				curLoop = &LoopSpec{N: n}
 				cur.Loops[n] = curLoop
 			}
+		case "body_ensures":
+			if curLoop == nil {
+				return fmt.Errorf("%s:%d: body_ensures outside loop", path, rc.line)
+			}
+			curLoop.BodyEns = append(curLoop.BodyEns, mk())
+		case "body_returns":
+			if curLoop == nil {
+				return fmt.Errorf("%s:%d: body_returns outside loop", path, rc.line)
+			}
+			curLoop.BodyRet = append(curLoop.BodyRet, mk())
 		case "invariant":
 			if curLoop == nil {
 				return fmt.Errorf("%s:%d: invariant outside loop", path, rc.line)
